@@ -495,6 +495,8 @@ def run_random(spec, ctx):
                 w = 3
             ops = [w, x]
         elif name == "round2":
+            if isinstance(w, (int, float, Fraction, Decimal)) and not isinstance(w, bool) and w == w and abs(w) > 50:
+                w = 3  # round(x, 10**20) computes 10**ndigits on the plain value too
             ops = [w]
         elif name == "setitem":
             ops = [w, x]
